@@ -39,3 +39,13 @@ W.contract(
     note="ll == plain list (without nested lazy lists): true exactly when the enumerated sequence equals the list",
     props=["C13"],
 )
+
+W.contract(
+    LL + "__add__",
+    params=dict(self=LAZY, rhs=ListOf(VAL)), result=SEQ(VAL), yields=VAL, requires=[INV_S],
+    ensures=[f"result == {SRC_S} + rhs", INV_S],
+    ensures_names=["C13-concatenation-is-the-lists-concatenation", "C13-inv"],
+    modifies=MODS,
+    note="ll + plain list: the enumerated sequence followed by the list's items, from any cache state (`yield from self` goes through __iter__'s contract)",
+    props=["C13"],
+)
